@@ -23,7 +23,7 @@ fn ident_at(text: &str, start: usize, end: usize) -> Option<(usize, String)> {
 }
 
 fn shape_name(v: &Value, seed: u64, wi: usize) -> &'static str {
-    match v["shape"].as_str() { Some("one-package") => Shape::OnePackage, Some(_) => Shape::TwoPackages, None => Shape::seeded(seed, wi) }.name()
+    match v["shape"].as_str() { Some(x) => Shape::parse(x).unwrap_or(Shape::TwoPackages), None => Shape::seeded(seed, wi) }.name()
 }
 
 fn main() {
@@ -47,7 +47,7 @@ fn main() {
         let files: Vec<(String, String)> = v["files"].as_array().unwrap().iter().map(|p| (p[0].as_str().unwrap().to_string(), p[1].as_str().unwrap().to_string())).collect();
         let mods: Vec<(&str, &str)> = files.iter().map(|(n, t)| (n.as_str(), t.as_str())).collect();
         let r = catch(|| {
-            let shape = match v["shape"].as_str() { Some("one-package") => Shape::OnePackage, Some(_) => Shape::TwoPackages, None => Shape::seeded(seed, wi) };
+            let shape = match v["shape"].as_str() { Some(x) => Shape::parse(x).unwrap_or(Shape::TwoPackages), None => Shape::seeded(seed, wi) };
             let ws = workspace::gen_workspace(shape, &mods);
             let a = ws.host.snapshot();
             let mut occ: Vec<Value> = vec![];
